@@ -31,17 +31,15 @@ FLAGS = ['notify_on_change', 'track_origin', 'enable_type_check', 'allow_writabl
          'as_sealed', 'allow_partial', 'auto_call_functors']
 TRI = ('allow_writable_accessors', 'as_sealed', 'allow_partial')      # accept None
 # managers of the registry that the harness does not drive (same primitive as a driven one)
-NOT_DRIVEN = {
-    'ContextualObject.override': 'same primitive (contextual_scope) as contextual_override; the per-object '
-                                 'threading.local is checked by T-SCOPE',
-}
+NOT_DRIVEN = {}
 PROCESS_WIDE = ('load_types_for_deserialization',)      # + dynamic_evaluate with pt=false
-DRIVEN = FLAGS + ['str_format', 'repr_format', 'permission', 'contextual_override', 'context',
+DRIVEN = FLAGS + ['str_format', 'repr_format', 'permission', 'contextual_override',
+                  'ContextualObject.override', 'context',
                   'view_options', 'view', 'preset_args', 'detour', 'apply_wrappers',
                   'load_types_for_deserialization', 'timeit', 'dynamic_evaluate', 'Functor.__call__']
 KIND = {
     'str_format': 'argScope', 'repr_format': 'argScope', 'permission': 'outermostWins',
-    'contextual_override': 'cascadeMap', 'context': 'stack:update', 'view_options': 'stack:deepMerge',
+    'contextual_override': 'cascadeMap', 'ContextualObject.override': 'cascadeMap', 'context': 'stack:update', 'view_options': 'stack:deepMerge',
     'view': 'stack:deepMerge',
     'preset_args': 'stack:preset', 'detour': 'stack:detour', 'apply_wrappers': 'stack:detour',
     'load_types_for_deserialization': 'stack:update', 'timeit': 'enterExit',
@@ -92,9 +90,23 @@ class Lib:
     class D:
       pass
 
-    def fn1(cls, *args, **kwargs):
-      del cls, args, kwargs
-      return 'fn1'
+    def make_fn(fname):
+      def fn(cls, *args, **kwargs):
+        """A detour destination FUNCTION. Called through a `call` node of a program it runs that
+        node's body (which may raise, create `cls` again, open nested detours); called from a
+        behavioural probe it just returns."""
+        del args, kwargs
+        stack = getattr(lib.tls, 'call_stack', [])
+        if stack and not stack[-1]['ran'] and stack[-1]['cls'] is cls:
+          frame = stack[-1]
+          frame['ran'] = True
+          frame['runner'].obs.append(['call:' + cls.__name__, fname, None])
+          frame['runner'].run(frame['body'])
+        return fname
+      fn.__name__ = fname
+      return fn
+    lib = self
+    fn1, fn2 = make_fn('fn1'), make_fn('fn2')
 
     class N:
       """A class that defines its own __new__ (detour saves and replaces it)."""
@@ -103,9 +115,11 @@ class Lib:
         del args, kwargs
         return super().__new__(cls)
 
+    self.tls = threading.local()
     self.classes = {'A': A, 'B': B, 'C': C, 'D': D, 'N': N}
     self.dests = dict(self.classes)
     self.dests['fn1'] = fn1
+    self.dests['fn2'] = fn2
     self.wrappers = {}
     for n in ('A', 'B', 'N'):
       w = pg.wrap(self.classes[n])
@@ -180,8 +194,13 @@ class Lib:
         return lib.tls.body()
 
     self.Probe = Probe
-    self.tls = threading.local()
     self.overrides = {}
+
+    class CtxObj(pg.ContextualObject):
+      x: int = SENTINEL
+      y: int = SENTINEL
+
+    self.ctxobj = CtxObj()      # ONE object shared by all threads: its overrides are per thread
     from pyglove.core.views import base as views_base
 
     class ProbeView(views_base.View):
@@ -248,6 +267,8 @@ class Lib:
       return self.coding.permission(self.coding.CodePermission(a))
     if name == 'contextual_override':
       return pg.contextual_override(**self.pykw(kw))
+    if name == 'ContextualObject.override':
+      return self.ctxobj.override(**{k: v['o'][0] for k, v in kw.items()})
     if name == 'context':
       return self.coding.context(**self.pykw(kw))
     if name == 'view_options':
@@ -278,7 +299,7 @@ class Lib:
         cache[a] = t
       return t
     if name == 'dynamic_evaluate':
-      return self.hyper.dynamic_evaluate(self.fns[a], per_thread=arg.get('pt', True))
+      return self.hyper.dynamic_evaluate(None if a is None else self.fns[a], per_thread=arg.get('pt', True))
     raise AssertionError(name)
 
   # -- getters ------------------------------------------------------------------------------
@@ -310,6 +331,13 @@ class Lib:
       for k in sorted(pg.utils.contextual.all_contextual_values()):
         o = pg.utils.contextual.get_contextual_override(k)
         out[k] = {'o': [self.atom(o.value), bool(o.cascade), bool(o.override_attrs)]}
+      return {'f': out}
+    if name == 'ContextualObject.override':
+      out = {}
+      for k in ('x', 'y'):
+        v = getattr(self.ctxobj, k)
+        if not (isinstance(v, int) and not isinstance(v, bool) and v == SENTINEL):
+          out[k] = {'o': [self.atom(v), False, False]}
       return {'f': out}
     if name == 'context':
       return self.frame(self.coding.get_context())
@@ -434,6 +462,7 @@ class Lib:
     self.tls.functor = self.Probe(SENTINEL, SENTINEL, override_args=True)
     self.tls.timeits = {}
     self.tls.timeit_active = []
+    self.tls.call_stack = []
     self.tls.onchange = self.OnChange(x=1)
     self.tls.typed = pg.Dict(x=1, value_spec=pg.typing.Dict([('x', pg.typing.Int())]))
 
@@ -513,6 +542,25 @@ class Runner:
       return
     if op == 'act':
       self.act(p[1], p[2])
+      return
+    if op == 'call':
+      # create an object of class p[2]; a function destination runs the body p[3]
+      cls = self.lib.classes[p[2]]
+      frame = {'cls': cls, 'body': p[3], 'ran': False, 'runner': self}
+      rec = {'mgr': 'call', 'arg': {'c': p[2]}, 'before': self.snapshot(), 'entered': False}
+      self.blocks.append(rec)
+      self.lib.tls.call_stack.append(frame)
+      try:
+        o = cls()
+        if not frame['ran']:
+          self.obs.append(['new:' + p[2], o if isinstance(o, str) else type(o).__name__, None])
+        rec['exit'] = 'normal'
+      except BaseException as e:
+        rec['exit'] = 'exc:' + type(e).__name__
+        raise
+      finally:
+        self.lib.tls.call_stack.pop()
+        rec['after'] = self.snapshot()
       return
     if op == 'scope':
       name, arg, body = p[1], p[2], p[3]
@@ -732,6 +780,9 @@ def gen_arg(rng, name):
     return {'kw': {x: gen_val(rng) for x in keys}}
   if name == 'permission':
     return {'a': rng.choice([0, 1, 3, 8, 255, 2, 17])}
+  if name == 'ContextualObject.override':
+    keys = rng.sample(['x', 'y'], rng.randint(0, 2))
+    return {'kw': {k: {'o': [rng.choice([None, 0, 1, 7, False, True, 'a']), False, False]} for k in keys}}
   if name == 'contextual_override':
     keys = rng.sample(['cx', 'cy', 'cz'], rng.randint(0, 2))
     return {'kw': {x: {'o': [rng.choice(ATOMS), rng.chance(0.4), rng.chance(0.3)]} for x in keys}}
@@ -754,7 +805,7 @@ def gen_arg(rng, name):
             'inh': rng.choice([False, True, 'global', 'p1', False, True])}
   if name == 'detour':
     srcs = rng.sample(['A', 'N', 'B', 'C', 'D', 'N', 'A'], rng.randint(0, 3))
-    return {'kw': {s: rng.choice(['A', 'B', 'C', 'D', 'N', 'fn1']) for s in srcs}}
+    return {'kw': {s: rng.choice(['A', 'B', 'C', 'D', 'N', 'fn1', 'fn2', 'fn1']) for s in srcs}}
   if name == 'apply_wrappers':
     ws = rng.sample(['WA', 'WB', 'WN'], rng.randint(1, 2))
     return {'kw': {w[1:]: w for w in ws}}
@@ -762,9 +813,10 @@ def gen_arg(rng, name):
     ts = rng.sample(['T1', 'T2', 'T3'], rng.randint(0, 2))
     return {'kw': {t: t for t in ts}}
   if name == 'timeit':
-    return {'a': rng.choice(['t1', 't2', 't3'])}
+    return {'a': rng.choice(['t1', 't2', 't3', 't1', 't2', ''])}
   if name == 'dynamic_evaluate':
-    return {'a': rng.choice(['f1', 'f2', 'f3']), 'pt': True}
+    # None = "no dynamic evaluation in this scope": a thread-level None, not an absent setting
+    return {'a': rng.choice(['f1', 'f2', 'f3', None]), 'pt': True}
   if name == 'Functor.__call__':
     keys = ['x', 'y'][:rng.randint(0, 2)]
     return {'kw': {x: rng.randint(0, 9) for x in keys}}
@@ -797,9 +849,12 @@ class ProgGen:
     budget[0] -= 1
     if depth <= 0 or budget[0] <= 0:
       return self.leaf(focus)
-    k = r.weighted([(6, 'scope'), (4, 'seq'), (2, 'try'), (1, 'leaf')])
+    in_detour = any(CELL[m] == 'detour' for m in self.open)
+    k = r.weighted([(6, 'scope'), (4, 'seq'), (2, 'try'), (1, 'leaf'), (4 if in_detour else 0, 'call')])
     if k == 'leaf':
       return self.leaf(focus)
+    if k == 'call':
+      return ['call', 'detour', r.choice(['A', 'B', 'C', 'D', 'N']), self.prog(depth - 1, focus, budget)]
     if k == 'seq':
       return ['seq', self.prog(depth, focus, budget), self.prog(depth, focus, budget)]
     if k == 'try':
@@ -830,6 +885,111 @@ class ProgGen:
       m = r.choice(acts)
       return ['act', m, r.choice(ACTIONS[m])]
     return [k]
+
+
+def falsy_args(name):
+  """Arguments that are falsy in Python yet a *setting* (not the absence of one)."""
+  if name in FLAGS:
+    return [{'a': False}] + ([{'a': None}] if name in TRI else [])
+  if name in ('str_format', 'repr_format', 'context'):
+    return [{'kw': {}}, {'kw': {'compact': None, 'k1': 0, 'k2': False}}, {'kw': {'k1': {'d': {}}, 'k2': {'l': []}}}]
+  if name in ('view_options', 'view'):
+    return [{'kw': {}}, {'kw': {'o1': None, 'o2': {'l': []}, 'o3': {'d': {}}}}, {'kw': {'o1': 0, 'o2': False}}]
+  if name == 'permission':
+    return [{'a': 0}]
+  if name == 'contextual_override':
+    return [{'kw': {}}, {'kw': {'cx': {'o': [None, True, False]}}}, {'kw': {'cx': {'o': [0, False, True]}, 'cy': {'o': [False, False, False]}}}]
+  if name == 'ContextualObject.override':
+    return [{'kw': {}}, {'kw': {'x': {'o': [None, False, False]}, 'y': {'o': [0, False, False]}}}]
+  if name == 'preset_args':
+    return [{'kw': {}, 'name': 'global', 'inh': False}, {'kw': {}, 'name': 'global', 'inh': True},
+            {'kw': {'k1': 0}, 'name': 'p1', 'inh': 'global'}]
+  if name == 'detour':
+    return [{'kw': {}}]
+  if name == 'load_types_for_deserialization':
+    return [{'kw': {}}]
+  if name == 'timeit':
+    return [{'a': ''}]
+  if name == 'dynamic_evaluate':
+    return [{'a': None, 'pt': True}]
+  if name == 'Functor.__call__':
+    return [{'kw': {}}]
+  return []
+
+
+def falsy_family(rng, reps=1):
+  """For every manager: a falsy setting nested under (and next to) truthy ones, while a second thread
+  holds a truthy setting of the same manager (for dynamic evaluation: a PROCESS-WIDE one) — the
+  falsy setting must stay in force; hand-offs are deterministic."""
+  for _ in range(reps):
+    for m in DRIVEN:
+      for f in falsy_args(m):
+        t1, t2 = gen_arg(rng, m), gen_arg(rng, m)
+        if m == 'dynamic_evaluate':
+          t1, t2 = {'a': rng.choice(['f1', 'f3']), 'pt': True}, {'a': 'f2', 'pt': False}
+        inner = ['scope', m, f, ['seq', ['probe', m], ['seq', ['sync'], ['seq', ['probe', m], ['seq', ['sync'], ['probe', m]]]]]]
+        if m in PROCESS_WIDE:
+          yield {'threads': [['scope', m, t1, ['seq', ['probe', m], ['seq', ['scope', m, f, ['probe', m]], ['probe', m]]]]]}
+          continue
+        for outer in (False, True):
+          w = ['seq', ['scope', m, t1, ['seq', ['probe', m], ['seq', inner, ['probe', m]]]] if outer else inner,
+               ['probe', m]]
+          # (thread 1 starts at thread 0's first hand-off)
+          b = ['seq', ['scope', m, t2, ['seq', ['probe', m], ['seq', ['sync'], ['probe', m]]]], ['probe', m]]
+          yield {'threads': [w, b]}
+          # the falsy block left by an exception while the other thread is inside its scope
+          wx = ['seq', ['try', ['scope', m, f, ['seq', ['sync'], ['seq', ['probe', m], ['raise']]]]], ['seq', ['sync'], ['probe', m]]]
+          if outer:
+            wx = ['scope', m, t1, wx]
+          yield {'threads': [wx, b]}
+
+
+def fn_family(rng, n):
+  """Detour destination FUNCTIONS: normal return, raising, raising and then creating the class
+  again, the class created inside the function, nested detours entered inside the function and
+  after it raised — in one thread and with a second thread doing the same on the same class."""
+  classes = ['A', 'B', 'C', 'D', 'N']
+
+  def item(c, depth):
+    k = rng.weighted([(3, 'ok'), (4, 'raise'), (3, 'again'), (3, 'probe'), (3 if depth > 0 else 0, 'nested'),
+                      (2 if depth > 0 else 0, 'fn_nested'), (1, 'other')])
+    if k == 'ok':
+      return ['call', 'detour', c, ['probe', 'detour'] if rng.chance(0.5) else ['skip']]
+    if k == 'raise':
+      return ['try', ['call', 'detour', c, ['seq', ['probe', 'detour'], ['raise']] if rng.chance(0.5) else ['raise']]]
+    if k == 'again':          # the function creates the very class again (allowed: temporary c -> c)
+      body = ['seq', ['call', 'detour', c, ['skip']], ['raise'] if rng.chance(0.4) else ['skip']]
+      return ['try', ['call', 'detour', c, body]]
+    if k == 'probe':
+      return ['probe', rng.choice(['detour', 'detour', 'apply_wrappers'])]
+    if k == 'nested':         # a nested detour entered later (after a possible exception above)
+      m, a = ('detour', gen_arg(rng, 'detour')) if rng.chance(0.7) else ('apply_wrappers', gen_arg(rng, 'apply_wrappers'))
+      return ['scope', m, a, seq([item(c, depth - 1) for _ in range(rng.randint(1, 3))] + [['probe', 'detour']])]
+    if k == 'fn_nested':      # the function itself opens a detour, maybe raises inside it
+      inner = ['scope', 'detour', gen_arg(rng, 'detour'),
+               ['seq', ['probe', 'detour'], ['seq', item(c, depth - 1), ['raise'] if rng.chance(0.4) else ['skip']]]]
+      return ['try', ['call', 'detour', c, inner]]
+    return ['call', 'detour', rng.choice(classes), ['skip']]
+
+  def seq(xs):
+    out = xs[-1]
+    for x in reversed(xs[:-1]):
+      out = ['seq', x, out]
+    return out
+
+  def one():
+    c = rng.choice(classes)
+    kw = {c: rng.choice(['fn1', 'fn2'])}
+    if rng.chance(0.5):
+      d = rng.choice([x for x in classes if x != c])
+      kw[d] = rng.choice(classes + ['fn1'])
+    body = seq([['probe', 'detour']] + [item(c, 2) for _ in range(rng.randint(2, 5))] + [['probe', 'detour']])
+    return ['seq', ['scope', 'detour', {'kw': kw}, body], ['probe', 'detour']]
+  for i in range(n):
+    if i % 4 == 3:
+      yield {'threads': [['seq', one(), ['sync']], ['seq', one(), ['sync']]]}
+    else:
+      yield {'threads': [one()]}
 
 
 def size(p):
@@ -869,7 +1029,12 @@ class C17(Prop):
   translators = [t_c17.run]
   case_timeout_s = 40
   jobs_quick = 6
-  rule = ('well-nested programs skip/seq/scope/raise/try/probe/act over the 21 driven managers of the T-SCOPE '
+  rule = ('ROUND 4 additions: call = creating an object inside a detour, a destination FUNCTION runs a sub-program '
+          '(returns, raises, creates the class again, opens nested detours); falsy family: for every manager a '
+          'None/False/0/empty setting nested under and next to truthy ones while a second thread holds a truthy '
+          '(dynamic evaluation: process-wide) setting, deterministic hand-offs; ContextualObject.override on one '
+          'object shared by all threads. '
+          'well-nested programs skip/seq/scope/raise/try/probe/act over the 21 driven managers of the T-SCOPE '
           'registry (act = a public action on the manager object of the enclosing block: TimeIt.end()/status(), '
           'pg.with_contextual_override wrapper called from a new thread; pg.view() inner renders are a manager; '
           'TimeIt and ContextualOverride objects are re-used; kwargs carry mutable nested dict / list values); '
@@ -944,6 +1109,8 @@ class C17(Prop):
       a = ['scope', m1, a1, ['seq', ['probe', m1], ['seq', ['sync'], ['seq', ['probe', m1], ['seq', ['sync'], ['probe', m1]]]]]]
       b = ['seq', ['try', ['scope', m2, a2, inner_b]], ['seq', ['probe', m2], ['sync']]]
       yield {'threads': [a, ['seq', ['sync'], b]]}
+    yield from falsy_family(rng, 1 if tier == 'quick' else 8)
+    yield from fn_family(rng, n_two // 2)
     if tier == 'thorough':
       yield from self.exhaustive_pairs(rng)
 
@@ -1051,13 +1218,25 @@ class C17(Prop):
     # restoration, block by block. A failing inner block also shows in the snapshots of the blocks
     # around it: report the block whose *own* getter changed (else the first one).
     failing = []
+
+    def shared(tid):
+      """Managers for which ANOTHER thread opens a documented process-wide scope: their getters may
+      legitimately change under this thread's feet (judged by the probes inside own scopes instead)."""
+      out_ = set()
+      for j, prog in enumerate(case['threads']):
+        if j != tid:
+          for n in walk(prog):
+            if n[0] == 'scope' and (n[1] in PROCESS_WIDE or (n[1] == 'dynamic_evaluate' and not n[2].get('pt', True))):
+              out_.add(n[1])
+      return out_
     for tid, blocks in enumerate(out['blocks']):
       for b in blocks:
         if 'after' not in b:
           continue
-        diff = sorted(k for k in b['before'] if b['before'][k] != b['after'].get(k))
+        diff = sorted(k for k in b['before'] if b['before'][k] != b['after'].get(k) and k not in shared(tid))
         if diff:
-          failing.append((0 if b['mgr'] in diff else 1, len(failing), tid, b, diff))
+          own = b['mgr'] in diff or (b['mgr'] == 'call' and 'detour' in diff)
+          failing.append((0 if own else 1, len(failing), tid, b, diff))
     if failing:
       own, _, tid, b, diff = min(failing, key=lambda x: (x[0], x[1]))
       m = b['mgr']
@@ -1095,7 +1274,7 @@ class C17(Prop):
         if b['mgr'] == 'timeit' and b.get('entered') and b.get('timeit_parent') is not None:
           par = blocks[b['timeit_parent']]
           keys = par.get('status_keys')
-          want = '%s.%s' % (par['arg']['a'], b['arg']['a'])
+          want = '%s.%s' % (par['arg']['a'], b['arg']['a']) if par['arg']['a'] else b['arg']['a']
           if keys is not None and want not in keys:
             return {'signature': 'timeit-child-not-registered',
                     'what': 'thread %d: pg.timeit(%r) entered inside pg.timeit(%r), but status() of the outer scope '
@@ -1103,13 +1282,13 @@ class C17(Prop):
     # a thread that starts while another one is inside scopes sees the same defaults as the first
     t0 = out['model']['threads'][0]['before']
     for tid, t in enumerate(out['model']['threads'][1:], 1):
-      diff = sorted(k for k in t0 if t['before'][k] != t0[k])
+      diff = sorted(k for k in t0 if t['before'][k] != t0[k] and k not in shared(tid))
       if diff:
         return {'signature': 'leak-across-threads:' + ','.join(diff),
                 'what': 'thread %d starts (the other thread being inside its scopes) and sees %s instead of the '
                         'defaults %s' % (tid, {k: t['before'][k] for k in diff}, {k: t0[k] for k in diff})}
     for tid, t in enumerate(out['model']['threads']):
-      diff = sorted(k for k in t['before'] if t['before'][k] != t['after'][k])
+      diff = sorted(k for k in t['before'] if t['before'][k] != t['after'][k] and k not in shared(tid))
       if diff:
         return {'signature': 'program-not-restored:' + ','.join(diff),
                 'what': 'thread %d: getters %s differ between start and end of the program' % (tid, diff)}
@@ -1123,7 +1302,7 @@ class C17(Prop):
     if two:
       # isolation: every probe of a thread must be explained by that thread's own enclosing scopes.
       for tid, prog in enumerate(case['threads']):
-        exp = self.expected_probes(prog, out['model']['threads'][tid]['before'])
+        exp = self.expected_probes(prog, out['model']['threads'][tid]['before'], shared(tid))
         got = out['model']['threads'][tid]['obs']
         for (name, want), g in zip(exp, got):
           if want is not None and g[0] == name and g[1] != want[1]:
@@ -1132,7 +1311,7 @@ class C17(Prop):
                             'was inside scopes at hand-off points)' % (tid, name, g[1], want[1])}
     return None
 
-  def expected_probes(self, prog, defaults):
+  def expected_probes(self, prog, defaults, shared=()):
     """Probe values a thread must see given only its own scopes (None: no independent rule).
     Follows the control flow of the program (raise / try) without looking at the implementation."""
     out = []
@@ -1140,7 +1319,12 @@ class C17(Prop):
     class Stop(Exception):
       pass
 
+    class Abort(Exception):
+      pass
+
     def cur(env, name):
+      if name in shared and not any(CELL[m] == CELL[name] for m, _ in env):
+        return None       # another thread's documented process-wide setting may show through
       v = ('v', defaults[name])
       for m, arg in env:
         if CELL[m] == CELL[name]:
@@ -1168,11 +1352,13 @@ class C17(Prop):
       elif op == 'act':
         if p[2] == 'wrapped_probe':
           out.append((p[1], cur(env, p[1])))
+      elif op == 'call':
+        raise Abort()     # whether the body runs depends on the mapping: not followed here
       elif op == 'scope':
         go(p[3], env + [(p[1], p[2])])
     try:
       go(prog, [])
-    except Stop:
+    except (Stop, Abort):
       pass
     return out
 
@@ -1194,6 +1380,8 @@ class C17(Prop):
       for n in walk(prog):
         if n[0] == 'scope':
           h.append('scope:' + n[1])
+        if n[0] == 'call':
+          h.append('call')
       if any(n[0] == 'raise' for n in walk(prog)):
         h.append('has-raise')
     for t in out.get('model', {}).get('threads', []):
@@ -1235,6 +1423,11 @@ class C17(Prop):
       yield p[3]
       for c in self._shrink_prog(p[3]):
         yield ['scope', p[1], p[2], c]
+    elif op == 'call':
+      yield p[3]
+      yield ['skip']
+      for c in self._shrink_prog(p[3]):
+        yield ['call', p[1], p[2], c]
     elif op in ('probe', 'raise', 'sync', 'act'):
       yield ['skip']
 
